@@ -64,6 +64,8 @@ def required_objects(repo, cfg, store):
                 if rel in fsckmod.RELEASE_NAMES:
                     continue
                 b, ext = fsckmod.uncompressed(rel)
+                if len(store[k][0]) == 0:
+                    continue  # Release entries with a non-positive size are never fetched (C10)
                 names.setdefault(b, []).append(rel)
         for b, variants in names.items():
             e = fsckmod.classify(b, set(cfg_cn))
